@@ -246,139 +246,76 @@ theorem accumulateLoop_spec (τ r : F) (fb : List (String × G)) (rest : List (A
 
 /-! ### `from_dual_msm` -/
 
-/-- The name under which `process_msm` files a term aside (`none`: the term stays variable). -/
-def fixedName (pfx : String) (t : Term F G) : Option String :=
-  match t.label with
-  | .fixed i => some (fixedCommitmentName pfx i)
-  | .perm i => some (permCommitmentName pfx i)
-  | .custom s => if s = minusGName then some minusGName else none
-  | _ => none
-
-theorem fixedSum_bmInsert_fresh (fb : List (String × G)) (k : String) (v : F)
-    (l : List (String × F)) (hk : k ∉ l.map (·.1)) :
-    fixedSum fb (bmInsert k v l) = fixedSum fb l + v • fbVal fb k := by
-  induction l with
-  | nil => simp [bmInsert, fixedSum]
-  | cons hd t ih =>
-    obtain ⟨k', v'⟩ := hd
-    unfold bmInsert
-    split
-    · simp [fixedSum]; abel
-    · split
-      · next heq => exact absurd (by simp [heq]) hk
-      · have := ih (fun h => hk (by simp [h]))
-        simp only [fixedSum, List.map_cons, List.sum_cons] at this ⊢
-        rw [this]; abel
-
-theorem bmInsert_keys (k : String) (v : F) (l : List (String × F)) :
-    ∀ kv ∈ bmInsert k v l, kv.1 = k ∨ kv.1 ∈ l.map (·.1) := by
-  induction l with
-  | nil => intro kv h; simp [bmInsert] at h; simp [h]
-  | cons hd t ih =>
-    obtain ⟨k', v'⟩ := hd
-    intro kv h
-    unfold bmInsert at h
-    split at h
-    · rcases List.mem_cons.mp h with h1 | h1
-      · left; rw [h1]
-      · right; exact List.mem_map_of_mem (f := (·.1)) h1
-    · split at h
-      · rcases List.mem_cons.mp h with h1 | h1
-        · left; rw [h1]
-        · right; simp only [List.map_cons, List.mem_cons]; right; exact List.mem_map_of_mem (f := (·.1)) h1
-      · rcases List.mem_cons.mp h with h1 | h1
-        · right; rw [h1]; simp
-        · rcases ih kv h1 with h2 | h2
-          · left; exact h2
-          · right; simp only [List.map_cons, List.mem_cons]; right; exact h2
-
-/-- Invariant of `process_msm`: value, definedness and the set of names used so far. -/
+/-- Invariant of `process_msm`: the value filed so far (variable terms plus fixed-base scalars
+under `fb`) grows by the value of the terms processed, and stays evaluable. -/
 theorem processMsm_spec [DecidableEq G] (pfx : String) (fb : List (String × G)) (m : MsmKzg F G) :
     ∀ (st st' : ProcSt F G), processMsm pfx fb m st = some st' →
-      (m.filterMap (fixedName pfx)).Nodup →
-      (∀ n ∈ m.filterMap (fixedName pfx), n ∉ st.fixed.map (·.1)) →
       Defined fb st.fixed →
       Defined fb st'.fixed ∧
       msmSum st'.terms + fixedSum fb st'.fixed = msmSum st.terms + fixedSum fb st.fixed + m.value := by
   induction m with
   | nil =>
-    intro st st' h _ _ hd
+    intro st st' h hd
     simp only [processMsm] at h
     cases h
     exact ⟨hd, by simp⟩
   | cons t rest ih =>
-    intro st st' h hnd hfresh hd
+    intro st st' h hd
     simp only [processMsm] at h
     cases hp : processTerm pfx fb st t with
     | none => simp [hp] at h
     | some st1 =>
       rw [hp] at h
       -- what one step does
-      have step : (fixedName pfx t = none ∧ st1 = { st with terms := st.terms ++ [(t.scalar, t.base)] }) ∨
-          (∃ name, fixedName pfx t = some name ∧ bmGet fb name = some t.base ∧
-            st1 = { st with fixed := bmInsert name t.scalar st.fixed }) := by
+      have step : (st1 = { st with terms := st.terms ++ [(t.scalar, t.base)] }) ∨
+          (∃ name, bmGet fb name = some t.base ∧
+            st1 = { st with fixed := bmUpsert name (0 + t.scalar) (· + t.scalar) st.fixed }) := by
         unfold processTerm at hp
-        unfold fixedName
         cases hl : t.label with
         | fixed i =>
-          simp only [hl] at hp ⊢
+          simp only [hl] at hp
           right
           split at hp
-          · next hg => exact ⟨_, rfl, hg, (Option.some.inj hp).symm⟩
+          · next hg => exact ⟨_, hg, (Option.some.inj hp).symm⟩
           · simp at hp
         | perm i =>
-          simp only [hl] at hp ⊢
+          simp only [hl] at hp
           right
           split at hp
-          · next hg => exact ⟨_, rfl, hg, (Option.some.inj hp).symm⟩
+          · next hg => exact ⟨_, hg, (Option.some.inj hp).symm⟩
           · simp at hp
         | custom s =>
-          simp only [hl] at hp ⊢
+          simp only [hl] at hp
           by_cases hs : s = minusGName
-          · simp only [hs, if_true] at hp ⊢
+          · simp only [hs, if_true] at hp
             right
             split at hp
-            · next hg => exact ⟨_, rfl, hg, (Option.some.inj hp).symm⟩
+            · next hg => exact ⟨_, hg, (Option.some.inj hp).symm⟩
             · simp at hp
-          · simp only [hs, if_false] at hp ⊢
-            left; exact ⟨trivial, (Option.some.inj hp).symm⟩
-        | advice i => simp only [hl] at hp ⊢; left; exact ⟨trivial, (Option.some.inj hp).symm⟩
-        | inst i => simp only [hl] at hp ⊢; left; exact ⟨trivial, (Option.some.inj hp).symm⟩
-        | noLabel => simp only [hl] at hp ⊢; left; exact ⟨trivial, (Option.some.inj hp).symm⟩
-      rcases step with ⟨hn, hst1⟩ | ⟨name, hn, hg, hst1⟩
+          · simp only [hs, if_false] at hp
+            left; exact (Option.some.inj hp).symm
+        | advice i => simp only [hl] at hp; left; exact (Option.some.inj hp).symm
+        | inst i => simp only [hl] at hp; left; exact (Option.some.inj hp).symm
+        | noLabel => simp only [hl] at hp; left; exact (Option.some.inj hp).symm
+      rcases step with hst1 | ⟨name, hg, hst1⟩
       · -- variable term
-        have hfm : (t :: rest).filterMap (fixedName pfx) = rest.filterMap (fixedName pfx) := by
-          simp [List.filterMap_cons, hn]
-        rw [hfm] at hnd hfresh
-        obtain ⟨h1, h2⟩ := ih st1 st' h hnd (by subst hst1; exact hfresh) (by subst hst1; exact hd)
+        obtain ⟨h1, h2⟩ := ih st1 st' h (by subst hst1; exact hd)
         refine ⟨h1, ?_⟩
         rw [h2]; subst hst1
         simp only [msmSum_append, msmSum_cons, msmSum_nil, MsmKzg.value_cons]
         abel
-      · -- fixed-base term
-        have hfm : (t :: rest).filterMap (fixedName pfx) = name :: rest.filterMap (fixedName pfx) := by
-          simp [List.filterMap_cons, hn]
-        rw [hfm] at hnd hfresh
-        have hnd' := (List.nodup_cons.mp hnd)
-        have hname_fresh : name ∉ st.fixed.map (·.1) := hfresh name (by simp)
+      · -- fixed-base term: the scalar is added to the entry of its name
         have hd1 : Defined fb st1.fixed := by
           subst hst1
           intro kv hkv
-          rcases bmInsert_keys _ _ _ kv hkv with h1 | h1
+          rcases bmUpsert_keys _ _ _ _ kv hkv with h1 | h1
           · rw [h1, hg]; rfl
           · obtain ⟨y, hy, hy1⟩ := List.mem_map.mp h1
             rw [← hy1]; exact hd y hy
-        have hfresh1 : ∀ n ∈ rest.filterMap (fixedName pfx), n ∉ st1.fixed.map (·.1) := by
-          subst hst1
-          intro n hn' hmem
-          obtain ⟨y, hy, hy1⟩ := List.mem_map.mp hmem
-          rcases bmInsert_keys _ _ _ y hy with h1 | h1
-          · rw [hy1] at h1; subst h1; exact hnd'.1 hn'
-          · rw [hy1] at h1; exact hfresh n (by simp [hn']) h1
-        obtain ⟨h1, h2⟩ := ih st1 st' h hnd'.2 hfresh1 hd1
+        obtain ⟨h1, h2⟩ := ih st1 st' h hd1
         refine ⟨h1, ?_⟩
         rw [h2]; subst hst1
-        simp only [fixedSum_bmInsert_fresh fb name t.scalar st.fixed hname_fresh, MsmKzg.value_cons]
+        simp only [zero_add, fixedSum_bmUpsert, MsmKzg.value_cons]
         have : fbVal fb name = t.base := by simp [fbVal, hg]
         rw [this]; abel
 
